@@ -38,6 +38,10 @@ pub fn euler_checks(model: &Arc<ResidualModel>, s: &RState, lam: f64) -> Vec<Che
     let nc = s.n.len();
     let v = s.v;
     let a = st.residual_helmholtz_energy().to_reduced();
+    if a.is_nan() {
+        // the model is undefined at this state (e.g. ePC-SAFT outside the range of its permittivity model): nothing to compare
+        return out;
+    }
     let p_res = st.pressure(Contributions::Residual).to_reduced();
     let mu = st.residual_chemical_potential().to_reduced();
     let mun: f64 = (0..nc).map(|i| mu[i] * n[i]).sum();
